@@ -198,7 +198,9 @@ def run_case(c):
               fsm_states=sorted(state["fsm_states"]), fsm_transitions=state["trans"], roundtrips=state["roundtrips"], cycles=cycles)
     enc = dict(dut.fifo.fsm.encoding) if has_fsm else {}
     pump = bool(set(st["fsm_states"]) & {enc.get("PUMP_PRECONVERTER"), enc.get("DRAIN_POSTCONVERTER")})
+    perm = (len(got) == state["sent"] and sorted(got) == sorted(words[:len(got)]))
     for x in v:
+        x["output_is_permutation_of_input"] = perm
         x["bypass"] = c["bypass"]
         x["ratio"] = ratio
         x["visited_pump_or_drain_state"] = pump
